@@ -1,4 +1,5 @@
 import Feox.Cache.Model
+import Feox.Kv.Tiers
 /-!
 # C16 — the read cache's accounting is exact and a hit is only ever for the right generation
 
@@ -402,5 +403,33 @@ theorem replace_needs_newer (s : State) (c g : Nat) (hne : c ≠ g)
 
 example : (Cache.insert (mkState 4 72 (fun _ => 1)) [1] [2, 3] none).mem = 75 := by
   decide
+
+/-! ### store level: the cache is transparent -/
+
+/-- **Cache fills and evictions are invisible**: in every state reachable by API calls and tier
+moves, filling the cache from the device or dropping any entry changes no read, of any key -/
+theorem cache_moves_invisible (l : List Feox.Kv.Tiers.Step) (hr : Feox.Kv.Tiers.Run Feox.Kv.Tiers.init l)
+    (st : Feox.Kv.Tiers.Step) (hst : (∃ k, st = .cacheFill k) ∨ (∃ i, st = .cacheDrop i))
+    (he : Feox.Kv.Tiers.enabled (Feox.Kv.Tiers.runFrom Feox.Kv.Tiers.init l) st) (k : Feox.Kv.Tiers.Key) :
+    Feox.Kv.Tiers.read (Feox.Kv.Tiers.apply (Feox.Kv.Tiers.runFrom Feox.Kv.Tiers.init l) st) k =
+      Feox.Kv.Tiers.read (Feox.Kv.Tiers.runFrom Feox.Kv.Tiers.init l) k := by
+  have hi := Feox.Kv.Tiers.run_inv l _ Feox.Kv.Tiers.inv_init hr
+  have hi' := Feox.Kv.Tiers.step_inv st hi he
+  rw [Feox.Kv.Tiers.read_abs hi' k, Feox.Kv.Tiers.read_abs hi k]
+  have : Feox.Kv.Tiers.abs (Feox.Kv.Tiers.apply (Feox.Kv.Tiers.runFrom Feox.Kv.Tiers.init l) st) k =
+      Feox.Kv.Tiers.abs (Feox.Kv.Tiers.runFrom Feox.Kv.Tiers.init l) k := by
+    rcases hst with ⟨k', rfl⟩ | ⟨i, rfl⟩
+    · exact Feox.Kv.Tiers.move_abs _ _ he trivial k
+    · exact Feox.Kv.Tiers.move_abs _ _ he trivial k
+  rw [this]
+
+/-- **A cached value is served only for the generation it was read for**: an entry whose tag is
+the indexed generation's identity holds that generation's value; entries of other generations are
+never consulted (the read path looks the tag up) -/
+theorem cached_value_is_current (l : List Feox.Kv.Tiers.Step) (hr : Feox.Kv.Tiers.Run Feox.Kv.Tiers.init l)
+    (e : Feox.Kv.Tiers.CEntry) (he : e ∈ (Feox.Kv.Tiers.runFrom Feox.Kv.Tiers.init l).cache)
+    (g : Feox.Kv.Tiers.Gen) (hg : (Feox.Kv.Tiers.runFrom Feox.Kv.Tiers.init l).index e.key = some g) (ht : g.id = e.tag) :
+    e.val = g.val :=
+  (Feox.Kv.Tiers.run_inv l _ Feox.Kv.Tiers.inv_init hr).cache e he g hg ht
 
 end Feox.C16
